@@ -462,6 +462,20 @@ let c07_ltxm t =
       " chunks=" ^ join "," (fun ((a, b), k) -> sz a ^ "-" ^ sz b ^ "[" ^ sz k ^ "]") o.o_chunks ^
       " need=" ^ sb (st.l_bv.needed = [])) (lruns lst_init reqs)
 
+(* ---------- C06 ---------- *)
+(* fromconn <dbmax|-1> S{v a b last} G{a b} -> what from_conn rebuilds *)
+let c06_fromconn t =
+  let dbmax = p_omax t in
+  let ns = ti t in
+  let rows = tlist t ns (fun t -> let v = tz t in let a = tz t in let b = tz t in let l = tz t in
+                          { sr_version = v; sr_start = a; sr_end = b; sr_last = l }) in
+  let gaps = p_ranges t in
+  fmt_bv (from_conn dbmax rows gaps)
+(* chk_reload <bv> G{a b}: the rebuilt state satisfies the bookkeeping invariant with the durable gap rows *)
+let c06_chk t =
+  let b = p_bv t in let g = p_ranges t in
+  "ok=" ^ sb (inv_b b g)
+
 (* ---------- dispatch ---------- *)
 let handlers : (string * (toks -> string)) list ref = ref [
   "chunks", c08_chunks;
@@ -474,6 +488,8 @@ let handlers : (string * (toks -> string)) list ref = ref [
   "chk_needs", c04_chk;
   "members", c18_members;
   "chk_members", c18_chk;
+  "fromconn", c06_fromconn;
+  "chk_reload", c06_chk;
   "ltxm", c07_ltxm;
   "srvq", c05_srvq;
   "chk_srv", c05_chk;
